@@ -65,6 +65,19 @@ theorem kind_table_xls :
   simp [Gen.xlsKindTable] at h1 h2
   rcases h1 with ⟨rfl, rfl⟩ | ⟨rfl, rfl⟩ | ⟨rfl, rfl⟩ | ⟨rfl, rfl⟩ <;> simp at h2 <;> omega
 
+/-- xlsx / xlsb sheet kinds after fix D27: the four folders Excel uses, one kind each (no folder for VBA modules,
+    which these formats keep in `vbaProject.bin`), and no two folders for one kind -/
+theorem kind_table_xlsx :
+    xlsxFolder .workSheet = some "worksheets" ∧ xlsxFolder .chartSheet = some "chartsheets" ∧
+    xlsxFolder .dialogSheet = some "dialogsheets" ∧ xlsxFolder .macroSheet = some "macrosheets" ∧ xlsxFolder .vba = none ∧
+    (∀ a b k, Gen.xlsxKindTable.lookup a = some k → Gen.xlsxKindTable.lookup b = some k → a = b) := by
+  refine ⟨by decide, by decide, by decide, by decide, by decide, ?_⟩
+  intro a b k ha hb
+  have h1 := lookup_mem _ _ _ ha
+  have h2 := lookup_mem _ _ _ hb
+  simp [Gen.xlsxKindTable] at h1 h2
+  rcases h1 with ⟨rfl, rfl⟩ | ⟨rfl, rfl⟩ | ⟨rfl, rfl⟩ | ⟨rfl, rfl⟩ <;> simp at h2 <;> simp [h2]
+
 /-- xlsx and xlsb derive the kind from the same path segments -/
 theorem kind_tables_xlsx_xlsb_agree : Gen.xlsxKindTable = Gen.xlsbKindTable := by decide
 
